@@ -129,8 +129,11 @@ def infer_series_stype(ser: Series) -> stype | None:
 
             # Candates: categorical, multicategorical,
             # text_(embedded/tokenized), embedding
-            if _min_count(ser) > cat_min_count_thresh or ptypes.is_bool_dtype(
-                    ser):
+            # NOTE: `is_bool_dtype` is False for an object column of bools
+            # (bools with missing cells), so look at the values themselves.
+            if (_min_count(ser) > cat_min_count_thresh
+                    or ptypes.is_bool_dtype(ser)
+                    or ptypes.infer_dtype(ser, skipna=True) == 'boolean'):
                 return stype.categorical
 
             # Candates: multicategorical, text_(embedded/tokenized), embedding
